@@ -20,9 +20,9 @@ Stus == {[seq |-> q, stop |-> s, track |-> k, sr |-> r, arr |-> a, dep |-> None]
 
 TripSlices ==
     CASE Slice = "ids"    -> {[BaseTrip EXCEPT !.id = a, !.route = b] : a \in Strs, b \in Strs}
-      [] Slice = "header" -> {[BaseTrip EXCEPT !.dir = d, !.hasSD = hd, !.sd = IF hd THEN sd ELSE 0, !.hasST = ht, !.st = IF ht THEN st ELSE 0, !.sr = r,
+      [] Slice = "header" -> {[BaseTrip EXCEPT !.dir = d, !.hasSD = hd, !.sd = sd, !.hasST = ht, !.st = st, !.sr = r,
                                                !.stus = IF n = 0 THEN <<>> ELSE IF n = 1 THEN <<BaseStu>> ELSE <<BaseStu, BaseStu>>] :
-                                d \in 0..2, hd \in BOOLEAN, sd \in {0, 7}, ht \in BOOLEAN, st \in {0, 1}, r \in {0, 1, 3}, n \in 0..2}
+                                d \in 0..2, hd \in BOOLEAN, sd \in {ZeroTime, 0, 7}, ht \in BOOLEAN, st \in {0, 1}, r \in {0, 1, 3}, n \in 0..2}
       [] Slice = "stu"    -> {[BaseTrip EXCEPT !.stus = <<s>>] : s \in Stus} \cup {[BaseTrip EXCEPT !.stus = <<BaseStu, s>>] : s \in Stus}
       [] Slice = "events" -> {[BaseTrip EXCEPT !.stus = <<[BaseStu EXCEPT !.arr = a, !.dep = d]>>] : a \in Evs,
                                 d \in {None, Some(NoEv), Some([time |-> Some(0), delay |-> Some(0), unc |-> Some(0)])} \cup {Some([NoEv EXCEPT !.delay = x]) : x \in OptOf({-1, 0, 1})}}
@@ -34,7 +34,7 @@ TripSlices ==
       [] Slice = "shift"  -> {[BaseTrip EXCEPT !.stus = <<[BaseStu EXCEPT !.stop = a, !.track = b]>>] : a \in OptOf(Strs), b \in OptOf(Strs)}
                              \cup {[BaseTrip EXCEPT !.route = a, !.stus = <<[BaseStu EXCEPT !.seq = None, !.stop = b]>>] : a \in Strs, b \in OptOf(SmallStrs)}
       [] Slice = "stu2"   -> {[BaseTrip EXCEPT !.stus = <<BaseStu, a, b>>] : a \in {x \in Stus : x.sr = 0 /\ x.arr = None}, b \in {x \in Stus : x.seq = None /\ x.track = None}}
-      [] Slice = "hdr2"   -> {[BaseTrip EXCEPT !.id = a, !.route = b, !.dir = d, !.hasSD = hd, !.sd = IF hd THEN 7 ELSE 0, !.hasST = ht, !.st = IF ht THEN st ELSE 0,
+      [] Slice = "hdr2"   -> {[BaseTrip EXCEPT !.id = a, !.route = b, !.dir = d, !.hasSD = hd, !.sd = IF hd THEN 7 ELSE ZeroTime, !.hasST = ht, !.st = IF ht THEN st ELSE 0,
                                                !.stus = IF n = 0 THEN <<>> ELSE <<BaseStu>>] :
                                 a \in Strs, b \in Strs, d \in 0..2, hd \in BOOLEAN, ht \in BOOLEAN, st \in {-1, 1}, n \in 0..1}
       [] OTHER -> {}
@@ -43,9 +43,10 @@ BasePos == [lat |-> Some(1), lon |-> Some(0), bearing |-> None, odo |-> Some(1),
 BaseVeh == [id |-> Some([id |-> <<97>>, label |-> <<>>, plate |-> <<98>>]), trip |-> None, pos |-> Some(BasePos), css |-> Some(1), stop |-> Some(<<97>>),
             status |-> None, ts |-> Some(5), cong |-> 0, occ |-> None, occPct |-> Some(0)]
 OF == OptOf({0, 1})
+OFodo == OptOf({0, 1, 2, 3})
 VehSlices ==
     CASE Slice = "vids"  -> {[BaseVeh EXCEPT !.id = Some([id |-> a, label |-> b, plate |-> c])] : a \in SmallStrs, b \in SmallStrs, c \in SmallStrs} \cup {[BaseVeh EXCEPT !.id = None]}
-      [] Slice = "vpos"  -> {[BaseVeh EXCEPT !.pos = p] : p \in {None} \cup {Some([lat |-> a, lon |-> b, bearing |-> c, odo |-> d, speed |-> e]) : a \in OF, b \in OF, c \in OF, d \in OF, e \in OF}}
+      [] Slice = "vpos"  -> {[BaseVeh EXCEPT !.pos = p] : p \in {None} \cup {Some([lat |-> a, lon |-> b, bearing |-> c, odo |-> d, speed |-> e]) : a \in OF, b \in OF, c \in OF, d \in OFodo, e \in OF}}
       [] Slice = "vrest" -> {[BaseVeh EXCEPT !.css = a, !.stop = b, !.status = c, !.ts = d, !.cong = e, !.occ = f, !.occPct = g] :
                                a \in OF, b \in OptOf(SmallStrs), c \in OF, d \in OptOf({0, 5}), e \in {0, 2}, f \in OF, g \in OF}
       [] Slice = "vtrip" -> {[BaseVeh EXCEPT !.trip = t, !.pos = p] :
